@@ -333,7 +333,9 @@ def _judge(job, specs, res):
     fired = res["fired"]
     fn = fired[0].get("function_at_region_entry") if fired else None
     where = "; ".join("line %s (visit %s, region %s, function %r)" % (f["label"], f["visit"], f["region"],
-                                                                      f.get("function_at_region_entry")) for f in fired)
+                                                                      f.get("function_at_region_entry")) for f in fired[:3])
+    if len(fired) > 3:
+        where += "; ... (%d timeouts fired in this run)" % len(fired)
     if not res["completed"]:
         err = "generation did not complete after a timeout injected at %s: %s | %s" % (
             where, res["error"], " ".join((res.get("traceback") or "").split())[-500:])
